@@ -218,6 +218,9 @@ impl StateMachine<'_> {
         if !self.test_pending_line_with_diff_name() {
             return Ok(());
         }
+        // Anything already rendered (e.g. the last hunk lines of the previous file) must be
+        // written before the pending header, which goes directly to the writer.
+        self.painter.emit()?;
 
         if !self.mode_info.is_empty() {
             let format_label = |label: &str| {
